@@ -356,3 +356,27 @@ func init() {
 			New: "\t\tcopy(weights2, weights)\n\t\ts.AppendClause(NewPBClause(lits2, weights, maxCost-cost+1))\n\t\ts.rebuildOrderHeap()\n\t\tstatus = s.Solve()\n\t}\n\treturn res", Expect: "R3.5"},
 	)
 }
+
+func init() {
+	addSeeds(
+		// ---- C14 ----
+		seed{Prop: "C14", Name: "pb-loop-binds-unit-without-retracting", File: "solver/solver.go",
+			Old: "\t\t\t\t\t\ts.lbdStats.addLbd(1)\n\t\t\t\t\t\ts.cleanupBindings(1)\n\t\t\t\t\t\ts.addLearnedUnit(unit)",
+			New: "\t\t\t\t\t\ts.lbdStats.addLbd(1)\n\t\t\t\t\t\ts.addLearnedUnit(unit)", Expect: "R14.1"},
+		seed{Prop: "C14", Name: "pb-loop-no-heap-rebuild", File: "solver/solver.go",
+			Old: "\t\t\t\t\t}\n\t\t\t\t\ts.rebuildOrderHeap()\n\t\t\t\t\tlit = s.chooseLit()\n\t\t\t\t\tlvl = 2",
+			New: "\t\t\t\t\t}\n\t\t\t\t\tlit = s.chooseLit()\n\t\t\t\t\tlvl = 2", Expect: "R14.1"},
+		seed{Prop: "C14", Name: "pb-loop-ignores-top-level-conflict", File: "solver/solver.go",
+			Old: "\t\t\t\t\t\tif conflict = s.unifyLiteral(unit, 1); conflict != nil { // top-level conflict\n\t\t\t\t\t\t\treturn s.setUnsat()\n\t\t\t\t\t\t}\n\t\t\t\t\t}",
+			New: "\t\t\t\t\t\tif conflict = s.unifyLiteral(unit, 1); conflict != nil { // top-level conflict\n\t\t\t\t\t\t\tbreak\n\t\t\t\t\t\t}\n\t\t\t\t\t}", Expect: "R14.1"},
+		seed{Prop: "C14", Name: "pb-loop-false-constraint-not-unsat", File: "solver/solver.go",
+			Old: "\t\t\t\tif newLvl == -1 { // Generated constraint is false\n\t\t\t\t\treturn s.setUnsat()\n\t\t\t\t}\n", New: "", Expect: "R14.2"},
+		seed{Prop: "C14", Name: "pb-loop-reason-not-recorded", File: "solver/solver.go",
+			Old: "\t\t\t\t\tfor _, lit := range propagated {\n\t\t\t\t\t\ts.reason[lit.Var()] = learnt\n\t\t\t\t\t}\n", New: "", Expect: "R1.8"},
+		seed{Prop: "C14", Name: "pb-reduce-forgets-unwatch", File: "solver/watcher.go",
+			Old: "\t\ts.wl.learned[i] = s.wl.learned[nbLearned-nbRemoved]\n\t\ts.unwatchPB(c)", New: "\t\ts.wl.learned[i] = s.wl.learned[nbLearned-nbRemoved]", Expect: "R1.4"},
+		seed{Prop: "C14", Name: "benign-unit-handling-helper", File: "solver/solver.go",
+			Old: "\t\t\t\t\ts.rebuildOrderHeap()\n\t\t\t\t\tlit = s.chooseLit()\n\t\t\t\t\tlvl = 2\n\t\t\t\t} else {\n\t\t\t\t\tlvl = newLvl",
+			New: "\t\t\t\t\ts.rebuildOrderHeap()\n\t\t\t\t\tlvl = 2\n\t\t\t\t\tlit = s.chooseLit()\n\t\t\t\t} else {\n\t\t\t\t\tlvl = newLvl", Expect: ""},
+	)
+}
